@@ -215,6 +215,7 @@ Failing(ww, e) == {name \in ClauseNames : ~Clause(name, ww, e)}
 
 SeenOf(ww, e) ==
   {e.a, ww.conv}
+  \cup (IF "on" \in DOMAIN e THEN {"on-" \o e.on} ELSE {})
   \cup (IF "via" \in DOMAIN ww THEN {"held-" \o ww.via} ELSE {})
   \cup (IF woff # 0 /\ e.a # "Mutate" THEN {"after-mutation"} ELSE {})
   \cup (IF ~clean THEN {"degenerate-skipped"} ELSE {})
